@@ -83,12 +83,12 @@ let register name f = handlers := (name, f) :: !handlers
 let () =
   register "describe" (function [s] -> describe s | _ -> "BADARGS");
   register "valid" (function [s] -> b2s (smiles_valid (explode s)) | _ -> "BADARGS");
-  register "same" (function [a; b] -> with2 a b (fun x y -> b2s (same_molecule x y)) | _ -> "BADARGS");
-  register "samecons" (function [a; b] -> with2 a b (fun x y -> b2s (same_constitution x y)) | _ -> "BADARGS");
-  register "mirror" (function [a; b] -> with2 a b (fun x y -> b2s (mirror_image x y)) | _ -> "BADARGS");
+  register "same" (function [a; b] -> with2 a b (fun x y -> b2s (same_molecule_f x y)) | _ -> "BADARGS");
+  register "samecons" (function [a; b] -> with2 a b (fun x y -> b2s (same_constitution_f x y)) | _ -> "BADARGS");
+  register "mirror" (function [a; b] -> with2 a b (fun x y -> b2s (mirror_image_f x y)) | _ -> "BADARGS");
   register "profiles" (function [a; b] -> with2 a b (fun x y ->
       String.concat "|" (List.map (fun p -> String.concat ";" (List.map (fun (i, d) ->
-          Printf.sprintf "%d:%s" (int_of_nat i) (sdiff_str d)) p)) (iso_profiles x y))) | _ -> "BADARGS")
+          Printf.sprintf "%d:%s" (int_of_nat i) (sdiff_str d)) p)) (iso_profiles_f x y))) | _ -> "BADARGS")
 
 let main () =
   try
@@ -277,7 +277,7 @@ let () =
     | [out; tree] ->
         (match sem_str (explode out), rgtree { s = tree; i = 0 } with
          | Some o, Some t ->
-             (match denotes o (strip_tree t) with
+             (match denotes_with same_molecule_f o (strip_tree t) with
               | Some true -> "1" | Some false -> "0" | None -> "NOSPEC")
          | None, _ -> "ERR-out"
          | _, None -> "ERR-tree")
@@ -365,7 +365,7 @@ let () =
          | Some o, Some b, Some mods ->
              let b' = strip_h b in
              (match modify_all b' b' mods with
-              | Some e -> if same_molecule o e then "1" else "0"
+              | Some e -> if same_molecule_f o e then "1" else "0"
               | None -> "NOSPEC")
          | None, _, _ -> "ERR-out"
          | _, None, _ -> "ERR-base"
@@ -383,21 +383,21 @@ let () =
              let n k = nat_of_int (int_of_string (List.nth args k)) in
              (match kind with
               | "ol" -> (match reduce_ring p with
-                         | Some (r, c) -> yes (same_except_at r o (fun i -> int_of_nat i = int_of_nat c))
+                         | Some (r, c) -> yes (same_except_at_f r o (fun i -> int_of_nat i = int_of_nat c))
                          | None -> "NOSPEC")
               | "onic" -> (match reduce_ring p with
-                           | Some (r, c) -> yes (same_except_at (oxidise r c) o (fun i -> false))
+                           | Some (r, c) -> yes (same_except_at_f (oxidise r c) o (fun i -> false))
                            | None -> "NOSPEC")
               | "aric" -> (match reduce_ring p, terminal_carbon p with
-                           | Some (r, c), Some t -> yes (same_except_at (oxidise (oxidise r c) t) o (fun i -> false))
+                           | Some (r, c), Some t -> yes (same_except_at_f (oxidise (oxidise r c) t) o (fun i -> false))
                            | _, _ -> "NOSPEC")
               | "uronic" -> (match terminal_carbon p with
-                             | Some t -> yes (same_molecule (oxidise p t) o)
+                             | Some t -> yes (same_molecule_f (oxidise p t) o)
                              | None -> "NOSPEC")
-              | "deoxy" -> (match deoxy p (n 0) with Some e -> yes (same_molecule e o) | None -> "NOSPEC")
-              | "anhydro" -> (match anhydro p (n 0) (n 1) with Some e -> yes (same_molecule e o) | None -> "NOSPEC")
+              | "deoxy" -> (match deoxy p (n 0) with Some e -> yes (same_molecule_f e o) | None -> "NOSPEC")
+              | "anhydro" -> (match anhydro p (n 0) (n 1) with Some e -> yes (same_molecule_f e o) | None -> "NOSPEC")
               | "epimer" -> (match position p (n 0) with
-                             | Some (x, _) -> yes (inverted_exactly_at p o (fun i -> int_of_nat i = int_of_nat x))
+                             | Some (x, _) -> yes (inverted_exactly_at_f p o (fun i -> int_of_nat i = int_of_nat x))
                              | None -> "NOSPEC")
               | "size" -> (match chain_length (strip_h o) with
                            | Some k -> yes (int_of_nat k = int_of_string (List.nth args 0))
